@@ -6,7 +6,11 @@ import (
 	"google.golang.org/protobuf/proto"
 	"google.golang.org/protobuf/reflect/protoreflect"
 	"pgregory.net/rapid"
+
+	"verif/simrt/spec"
 )
+
+type specRules spec.Rules
 
 // special strings: non-ASCII, reserved URL characters, JSON-sensitive characters.
 var specialStrings = []string{
@@ -208,4 +212,178 @@ func NewFilled(rt *rapid.T, mk func() proto.Message, label string, opt *GenOpts)
 	m := mk()
 	GenMessage(rt, m.ProtoReflect(), label, 0, opt)
 	return m
+}
+
+// nonZeroValue returns a canonical non-default scalar for fd.
+func nonZeroValue(fd protoreflect.FieldDescriptor) protoreflect.Value {
+	switch fd.Kind() {
+	case protoreflect.BoolKind:
+		return protoreflect.ValueOfBool(true)
+	case protoreflect.Int32Kind, protoreflect.Sint32Kind, protoreflect.Sfixed32Kind:
+		return protoreflect.ValueOfInt32(1)
+	case protoreflect.Int64Kind, protoreflect.Sint64Kind, protoreflect.Sfixed64Kind:
+		return protoreflect.ValueOfInt64(1)
+	case protoreflect.Uint32Kind, protoreflect.Fixed32Kind:
+		return protoreflect.ValueOfUint32(1)
+	case protoreflect.Uint64Kind, protoreflect.Fixed64Kind:
+		return protoreflect.ValueOfUint64(1)
+	case protoreflect.FloatKind:
+		return protoreflect.ValueOfFloat32(1.5)
+	case protoreflect.DoubleKind:
+		return protoreflect.ValueOfFloat64(1.5)
+	case protoreflect.StringKind:
+		return protoreflect.ValueOfString("p")
+	case protoreflect.BytesKind:
+		return protoreflect.ValueOfBytes([]byte{1})
+	case protoreflect.EnumKind:
+		vals := fd.Enum().Values()
+		return protoreflect.ValueOfEnum(vals.Get(vals.Len() - 1).Number())
+	}
+	return fd.Default()
+}
+
+// Repair rewrites m (recursively) so that it satisfies the validation rules the
+// world's spec declares (the subset the stub validator interprets).
+func Repair(w *WorldDesc, m protoreflect.Message, depth int) {
+	if depth > 8 {
+		return
+	}
+	sm, _ := w.Spec().FindMessage("." + string(m.Descriptor().FullName()))
+	fds := m.Descriptor().Fields()
+	for i := 0; i < fds.Len(); i++ {
+		fd := fds.Get(i)
+		var rules *specRules
+		if sm != nil {
+			if sf := sm.Field(string(fd.Name())); sf != nil && sf.Rules != nil {
+				rules = (*specRules)(sf.Rules)
+			}
+		}
+		if rules != nil {
+			repairField(m, fd, rules)
+		}
+		if !m.Has(fd) {
+			continue
+		}
+		switch {
+		case fd.IsMap():
+			if fd.MapValue().Kind() == protoreflect.MessageKind {
+				m.Get(fd).Map().Range(func(_ protoreflect.MapKey, v protoreflect.Value) bool {
+					Repair(w, v.Message(), depth+1)
+					return true
+				})
+			}
+		case fd.IsList():
+			if fd.Kind() == protoreflect.MessageKind {
+				l := m.Get(fd).List()
+				for j := 0; j < l.Len(); j++ {
+					Repair(w, l.Get(j).Message(), depth+1)
+				}
+			}
+		case fd.Kind() == protoreflect.MessageKind:
+			Repair(w, m.Mutable(fd).Message(), depth+1)
+		}
+	}
+}
+
+func repairField(m protoreflect.Message, fd protoreflect.FieldDescriptor, r *specRules) {
+	switch {
+	case fd.IsList():
+		l := m.Mutable(fd).List()
+		if r.MaxItems != nil {
+			for uint64(l.Len()) > *r.MaxItems {
+				l.Truncate(l.Len() - 1)
+			}
+		}
+		if r.MinItems != nil {
+			for uint64(l.Len()) < *r.MinItems {
+				if fd.Kind() == protoreflect.MessageKind {
+					l.Append(l.NewElement())
+				} else {
+					l.Append(nonZeroValue(fd))
+				}
+			}
+		}
+	case fd.IsMap():
+		mp := m.Mutable(fd).Map()
+		if r.MaxPairs != nil {
+			var keys []protoreflect.MapKey
+			mp.Range(func(k protoreflect.MapKey, _ protoreflect.Value) bool { keys = append(keys, k); return true })
+			sortMapKeys(keys)
+			for uint64(mp.Len()) > *r.MaxPairs && len(keys) > 0 {
+				mp.Clear(keys[len(keys)-1])
+				keys = keys[:len(keys)-1]
+			}
+		}
+	case fd.Kind() == protoreflect.MessageKind:
+		if r.Required && !m.Has(fd) {
+			m.Set(fd, m.NewField(fd))
+			m.Mutable(fd)
+		}
+	case fd.Kind() == protoreflect.StringKind:
+		if fd.HasPresence() && !m.Has(fd) {
+			return
+		}
+		s := []rune(m.Get(fd).String())
+		if len(r.In) > 0 {
+			ok := false
+			for _, x := range r.In {
+				if x == string(s) {
+					ok = true
+				}
+			}
+			if !ok {
+				m.Set(fd, protoreflect.ValueOfString(r.In[len(s)%len(r.In)]))
+			}
+			return
+		}
+		if r.MaxLen != nil && uint64(len(s)) > *r.MaxLen {
+			s = s[:*r.MaxLen]
+		}
+		if r.MinLen != nil {
+			for uint64(len(s)) < *r.MinLen {
+				s = append(s, 'm')
+			}
+		}
+		m.Set(fd, protoreflect.ValueOfString(string(s)))
+	case fd.Kind() == protoreflect.Int32Kind || fd.Kind() == protoreflect.Int64Kind:
+		if fd.HasPresence() && !m.Has(fd) {
+			return
+		}
+		v := m.Get(fd).Int()
+		lo, hi := int64(-1<<62), int64(1<<62)
+		if fd.Kind() == protoreflect.Int32Kind {
+			lo, hi = -1<<31, 1<<31-1
+		}
+		if r.Gt != nil {
+			lo = *r.Gt + 1
+		}
+		if r.Gte != nil {
+			lo = *r.Gte
+		}
+		if r.Lt != nil {
+			hi = *r.Lt - 1
+		}
+		if r.Lte != nil {
+			hi = *r.Lte
+		}
+		if v < lo {
+			v = lo
+		}
+		if v > hi {
+			v = hi
+		}
+		if fd.Kind() == protoreflect.Int32Kind {
+			m.Set(fd, protoreflect.ValueOfInt32(int32(v)))
+		} else {
+			m.Set(fd, protoreflect.ValueOfInt64(v))
+		}
+	}
+}
+
+func sortMapKeys(ks []protoreflect.MapKey) {
+	for i := 1; i < len(ks); i++ {
+		for j := i; j > 0 && ks[j].String() < ks[j-1].String(); j-- {
+			ks[j], ks[j-1] = ks[j-1], ks[j]
+		}
+	}
 }
